@@ -20,19 +20,33 @@ def _num(t):
 def generate():
     s = strip_comments(rd('sinks/rotatingfilesink.cpp'))
     c = _flat(fn_body(s, 'static quint32 calculateCRC32'))
-    init = _num(need(re.search(r'^ ?quint32 crc = (0x[0-9A-Fa-f]+|\d+);', c), 'calculateCRC32: quint32 crc = <init>; before the loops').group(1))
-    poly = _num(need(re.search(r'const quint32 polynomial = (0x[0-9A-Fa-f]+|\d+);', c), 'calculateCRC32: polynomial').group(1))
-    tsize = _num(need(re.search(r'static quint32 table\[(\d+)\];', c), 'calculateCRC32: table[256]').group(1))
-    mt = need(re.search(r'for \(quint32 i = 0; i < (\d+); i\+\+\) \{ quint32 value = i; for \(int j = 0; j < (\d+); j\+\+\) \{ '
-                        r'if \(value & 1\) value = \(value >> 1\) \^ polynomial; else value >>= 1; \} table\[i\] = value; \}', c),
+    # the lazily generated table lives in calculateCRC32 itself, or in a helper crc32Table() that returns it
+    if re.search(r'\bcrc32Table\(\)', c):
+        t = _flat(fn_body(s, 'static const quint32 *crc32Table'))
+        need(re.search(r'^ ?const quint32 \*table = crc32Table\(\); quint32 crc = ', c), 'calculateCRC32: table = crc32Table() first, then crc')
+        need(re.search(r'static bool tableGenerated = false; if \(!tableGenerated\) \{ for .* tableGenerated = true; \} return table; ?$', t),
+             'crc32Table: generate once, return the table')
+        c_main = re.sub(r'^ ?const quint32 \*table = crc32Table\(\);', '', c)
+    else:
+        t, c_main = c, c
+    init = _num(need(re.search(r'^ ?quint32 crc = (0x[0-9A-Fa-f]+|\d+);', c_main), 'calculateCRC32: quint32 crc = <init>; before the loops').group(1))
+    poly = _num(need(re.search(r'const quint32 polynomial = (0x[0-9A-Fa-f]+|\d+);', t), 'calculateCRC32: polynomial').group(1))
+    tsize = _num(need(re.search(r'static quint32 table\[(\d+)\];', t), 'calculateCRC32: table[256]').group(1))
+    # the reflected shift-xor step as if/else or as a conditional expression; loop variables of any name
+    mt = need(re.search(r'for \(quint32 (\w+) = 0; \1 < (\d+); \1\+\+\) \{ quint32 value = \1; for \(int (\w+) = 0; \3 < (\d+); \3\+\+\) \{ '
+                        r'(?:if \(value & 1\) value = \(value >> 1\) \^ polynomial; else value >>= 1;|'
+                        r'value = \(value & 1\) \? \(value >> 1\) \^ polynomial : value >> 1;) \} table\[\1\] = value; \}', t),
               'calculateCRC32: table generation loop (reflected shift-xor, table[i] = value)')
-    if _num(mt.group(1)) != tsize:
+    if _num(mt.group(2)) != tsize:
         raise AnchorError('ANCHOR NOT FOUND: calculateCRC32: table loop bound differs from the table size')
-    bits = _num(mt.group(2))
+    bits = _num(mt.group(4))
     buf = _num(need(re.search(r'char buffer\[(\d+)\];', c), 'calculateCRC32: char buffer[8192]').group(1))
-    need(re.search(r'file\.seek\(0\); char buffer\[\d+\]; while \(!file\.atEnd\(\)\) \{ auto bytesRead = file\.read\(buffer, sizeof\(buffer\)\); '
-                   r'for \(auto i = 0; i < bytesRead; i\+\+\) \{', c), 'calculateCRC32: chunked read loop from offset 0 over bytesRead bytes')
-    mu = need(re.search(r'crc = table\[\(crc \^ static_cast<unsigned char>\(buffer\[i\]\)\) & (0x[0-9A-Fa-f]+|\d+)\] \^ \(crc >> (\d+)\);', c),
+    # the chunk walked by index or by pointer (p < end: no iteration when read() returned -1, like i < bytesRead)
+    need(re.search(r'file\.seek\(0\); char buffer\[\d+\]; while \(!file\.atEnd\(\)\) \{ (?:auto|const qint64) bytesRead = file\.read\(buffer, sizeof\(buffer\)\); '
+                   r'(?:for \(auto i = 0; i < bytesRead; i\+\+\)|for \(const char \*p = buffer, \*end = buffer \+ bytesRead; p < end; \+\+p\)) \{', c),
+         'calculateCRC32: chunked read loop from offset 0 over bytesRead bytes')
+    mu = need(re.search(r'crc = table\[\(crc \^ static_cast<unsigned char>\(buffer\[i\]\)\) & (0x[0-9A-Fa-f]+|\d+)\] \^ \(crc >> (\d+)\);', c)
+              or re.search(r'const auto index = \(crc \^ static_cast<unsigned char>\(\*p\)\) & (0x[0-9A-Fa-f]+|\d+); crc = table\[index\] \^ \(crc >> (\d+)\);', c),
               'calculateCRC32: crc = table[(crc ^ byte) & mask] ^ (crc >> shift)')
     mask, shift = _num(mu.group(1)), _num(mu.group(2))
     if len(re.findall(r'\bcrc = ', c)) != 2:   # the declaration and the update: no re-initialisation per chunk
@@ -42,8 +56,18 @@ def generate():
     f = _flat(fn_body(s, 'void compressFile'))
     # header: the sequence of putChar / write calls before the body
     hdr = []
-    mh = need(re.search(r"((?:outputFile\.(?:putChar\('\\x[0-9a-fA-F]{2}'\)|write\(\"(?:\\x[0-9a-fA-F]{2})+\", \d+\)); ?)+)auto rawData", f),
-              'compressFile: header bytes written before the body')
+    if re.search(r'\bwriteGzipHeader\(', f):
+        # the header calls moved into a helper whose body is nothing but them; called once, before the input is read
+        need(re.search(r'writeGzipHeader\(outputFile\); .*inputFile\.readAll\(\)', f), 'compressFile: header written before the body')
+        need(re.search(r'static void writeGzipHeader\(QFile &gzFile\)', s), 'writeGzipHeader(QFile &gzFile)')
+        hb = _flat(fn_body(s, 'static void writeGzipHeader')).replace('gzFile.', 'outputFile.')
+        mh = need(re.search(r"^ ?((?:outputFile\.(?:putChar\('\\x[0-9a-fA-F]{2}'\)|write\(\"(?:\\x[0-9a-fA-F]{2})+\", \d+\)); ?)+)$", hb),
+                  'writeGzipHeader: header bytes and nothing else')
+        if len(re.findall(r'\bwriteGzipHeader\(', s)) != 2:
+            raise AnchorError('ANCHOR NOT FOUND: writeGzipHeader: defined once, called once')
+    else:
+        mh = need(re.search(r"((?:outputFile\.(?:putChar\('\\x[0-9a-fA-F]{2}'\)|write\(\"(?:\\x[0-9a-fA-F]{2})+\", \d+\)); ?)+)auto rawData", f),
+                  'compressFile: header bytes written before the body')
     for call in re.finditer(r"putChar\('\\x([0-9a-fA-F]{2})'\)|write\(\"((?:\\x[0-9a-fA-F]{2})+)\", (\d+)\)", mh.group(1)):
         if call.group(1) is not None:
             hdr.append(int(call.group(1), 16))
@@ -52,21 +76,43 @@ def generate():
             if len(bs) != int(call.group(3)):
                 raise AnchorError('ANCHOR NOT FOUND: compressFile: header write length differs from its literal')
             hdr += bs
-    level = _num(need(re.search(r'auto rawData = inputFile\.readAll\(\); auto compressed = qCompress\(rawData, (\d+)\);', f),
+    level = _num(need(re.search(r'(?:const )?auto rawData = inputFile\.readAll\(\); (?:const )?auto compressed = qCompress\(rawData, (\d+)\);', f),
                       'compressFile: qCompress(rawData, level) of the whole input').group(1))
-    mg = need(re.search(r'if \(compressed\.size\(\) > (\d+)\) \{ outputFile\.write\(compressed\.constData\(\) \+ (\d+), '
-                        r'compressed\.size\(\) - (\d+) - (\d+)\); \}', f), 'compressFile: guard and slice of the qCompress output')
-    guard, front, sub_a, sub_b = (_num(mg.group(i)) for i in (1, 2, 3, 4))
+    mg = re.search(r'if \(compressed\.size\(\) > (\d+)\) \{ outputFile\.write\(compressed\.constData\(\) \+ (\d+), '
+                   r'compressed\.size\(\) - (\d+) - (\d+)\); \}', f)
+    if mg:
+        guard, front, sub_a, sub_b = (_num(mg.group(i)) for i in (1, 2, 3, 4))
+    else:
+        # the same numbers as named constants (sums of literals): prefix = length + zlib header, suffix = Adler-32
+        mn = need(re.search(r'const int zlibPrefix = (\d+(?: \+ \d+)*); const int zlibSuffix = (\d+(?: \+ \d+)*);', f), 'compressFile: guard and slice of the qCompress output')
+        need(re.search(r'if \(compressed\.size\(\) > zlibPrefix \+ zlibSuffix\) \{ outputFile\.write\(compressed\.constData\(\) \+ zlibPrefix, '
+                       r'compressed\.size\(\) - zlibPrefix - zlibSuffix\); \}', f), 'compressFile: guard and slice of the qCompress output')
+        if len(re.findall(r'\bzlibPrefix\b', f)) != 4 or len(re.findall(r'\bzlibSuffix\b', f)) != 3:
+            raise AnchorError('ANCHOR NOT FOUND: compressFile: zlibPrefix / zlibSuffix used in the guard and the slice only')
+        pre, suf = (sum(int(x) for x in mn.group(i).split('+')) for i in (1, 2))
+        guard, front, sub_a, sub_b = pre + suf, pre, pre, suf
     # trailer: sources, byte order, order of the two writes
-    need(re.search(r'auto fileCRC = calculateCRC32\(inputFile\);', f), 'compressFile: fileCRC = calculateCRC32(inputFile)')
-    need(re.search(r'auto fileSize = static_cast<quint32>\(inputFile\.size\(\)\);', f), 'compressFile: fileSize = (quint32) inputFile.size()')
-    need(re.search(r'inputFile\.seek\(0\); outputFile\.putChar', f), 'compressFile: input rewound before readAll')
-    me = need(re.search(r'auto le_crc = (qToLittleEndian|qToBigEndian)\(fileCRC\); auto le_size = (qToLittleEndian|qToBigEndian)\(fileSize\);', f),
-              'compressFile: le_crc / le_size conversions')
+    need(re.search(r'(?:const )?auto fileCRC = calculateCRC32\(inputFile\);', f), 'compressFile: fileCRC = calculateCRC32(inputFile)')
+    need(re.search(r'(?:const )?auto fileSize = static_cast<quint32>\(inputFile\.size\(\)\);', f), 'compressFile: fileSize = (quint32) inputFile.size()')
+    # the input is rewound after the CRC pass and nothing touches it between that and readAll()
+    need(re.search(r'calculateCRC32\(inputFile\);.*inputFile\.seek\(0\);(?:(?!inputFile\.).)*inputFile\.readAll\(\)', f), 'compressFile: input rewound before readAll')
+    if re.search(r'\bwriteGzipTrailer\(', f):
+        need(re.search(r'\} writeGzipTrailer\(outputFile, fileCRC, fileSize\); inputFile\.close\(\);', f), 'compressFile: trailer written after the body')
+        need(re.search(r'static void writeGzipTrailer\(QFile &gzFile, quint32 crc, quint32 uncompressedSize\)', s), 'writeGzipTrailer(file, crc, size)')
+        if len(re.findall(r'\bwriteGzipTrailer\(', s)) != 2:
+            raise AnchorError('ANCHOR NOT FOUND: writeGzipTrailer: defined once, called once')
+        tb = _flat(fn_body(s, 'static void writeGzipTrailer'))
+        me = need(re.search(r'^ ?const auto leCrc = (qToLittleEndian|qToBigEndian)\(crc\); const auto leSize = (qToLittleEndian|qToBigEndian)\(uncompressedSize\); '
+                            r'((?:gzFile\.write\(reinterpret_cast<const char \*>\(&le(?:Crc|Size)\), 4\); ?){2})$', tb),
+                  'writeGzipTrailer: two conversions, two 4-byte writes and nothing else')
+        order = [x.lower() for x in re.findall(r'&le(Crc|Size)\)', me.group(3))]
+    else:
+        me = need(re.search(r'auto le_crc = (qToLittleEndian|qToBigEndian)\(fileCRC\); auto le_size = (qToLittleEndian|qToBigEndian)\(fileSize\);', f),
+                  'compressFile: le_crc / le_size conversions')
+        order = re.findall(r'outputFile\.write\(reinterpret_cast<const char\*>\(&le_(crc|size)\), 4\);', f)
     if me.group(1) != me.group(2):
         raise AnchorError('ANCHOR NOT FOUND: compressFile: the two trailer fields use different byte orders')
     endian = 'LE' if me.group(1) == 'qToLittleEndian' else 'BE'
-    order = re.findall(r'outputFile\.write\(reinterpret_cast<const char\*>\(&le_(crc|size)\), 4\);', f)
     if sorted(order) != ['crc', 'size']:
         raise AnchorError('ANCHOR NOT FOUND: compressFile: exactly one 4-byte write of le_crc and one of le_size')
     trailer = '; '.join({'crc': 'TCrc', 'size': 'TSize'}[x] for x in order)
